@@ -1,2 +1,123 @@
-(* Property C06 - placeholder while the pipeline is brought up; theorems follow. *)
-From Str Require Import StrSpec StrModel.
+(* Property C06 - "String is an independent byte-string value matching a reference model".
+   Only statements closed by `exact`, each followed by Print Assumptions, plus non-vacuity Examples.
+
+   Clause of the property statement                      -> theorem
+   ----------------------------------------------------------------------------------------------
+   holds exactly the bytes of the reference byte string
+   after the same operations, same answers for length /
+   comparison / search / prefix / suffix queries          -> string_refines_values (all 50 operations,
+                                                             all histories; results and values)
+   no bounds error / use after free / foreign write        -> run_memory_safe
+   C-string view NUL-terminated at length()                -> cstr_nul_terminated
+   modifying one String never changes another String       -> copies_independent
+   ... nor the literal or attached memory                  -> foreign_memory_unchanged
+   including when an argument is the String itself         -> self_args_as_if_copied (+ the self cases
+                                                             inside string_refines_values)
+   lazy-copy bookkeeping (ref = number of handles, no
+   handle to a freed block, everything freed at the end)   -> heap_invariant
+   case mapping through the tables of String.cpp           -> case_tables_are_ascii
+   printf: the bytes vsnprintf produced are an input of the operation (modelled as input);
+   strstr / strpbrk / strchr are reference functions on NUL-free text (trusted). *)
+From Coq Require Import ZArith List Bool.
+From Common Require Import Words ListAux.
+From Str Require Import StrSpec StrModel StrInv StrFun StrMain.
+Import ListNotations.
+
+Theorem string_refines_values : forall ops,
+  match spec_run sinit ops with
+  | Some (s, outs) => exists w, run winit ops = Ok (w, outs) /\ abs w = s /\ Inv w
+  | None => run winit ops = Err BadArg
+  end.
+Proof. exact string_refines_values_thm. Qed.
+Print Assumptions string_refines_values.
+
+Theorem run_memory_safe : forall ops e, run winit ops = Err e -> e = BadArg.
+Proof. exact run_memory_safe_thm. Qed.
+Print Assumptions run_memory_safe.
+
+Theorem cstr_nul_terminated : forall ops w outs v, run winit ops = Ok (w, outs) -> v < length (vars w) ->
+  exists w' h', cstr w v = Ok w' /\ nth_error (vars w') v = Some h' /\
+    d_read w' h' (length (h_value w' h')) 1 = Ok [Some 0%Z] /\ abs w' = abs w /\ Inv w'.
+Proof. exact cstr_nul_terminated_thm. Qed.
+Print Assumptions cstr_nul_terminated.
+
+Theorem copies_independent : forall w o w' r u, Inv w -> step w o = Ok (w', r) ->
+  target o <> Some u -> u < length (vars w) -> u < length (vars w') ->
+  value w' u = value w u.
+Proof. exact copies_independent_thm. Qed.
+Print Assumptions copies_independent.
+
+Theorem foreign_memory_unchanged : forall w o w' r, Inv w -> step w o = Ok (w', r) ->
+  exists ext, regs w' = regs w ++ ext.
+Proof. exact foreign_memory_unchanged_thm. Qed.
+Print Assumptions foreign_memory_unchanged.
+
+Theorem self_args_as_if_copied : forall k w v x, Inv w ->
+  has (abs w) v = true -> has (abs w) x = true -> pre (abs w) (self_op k v v x) = true ->
+  exists w1 r1 w2 rs2,
+    step w (self_op k v v x) = Ok (w1, r1) /\
+    run w [OCopy v; self_op k v (length (vars w)) x; ODrop] = Ok (w2, rs2) /\
+    abs w1 = abs w2.
+Proof. exact self_args_as_if_copied_thm. Qed.
+Print Assumptions self_args_as_if_copied.
+
+Theorem heap_invariant : forall ops w outs, run winit ops = Ok (w, outs) ->
+  (forall b k, nth_error (heap w) b = Some k -> bref k = count_occ handle_dec (vars w) (HBlock b)) /\
+  (forall v b, nth_error (vars w) v = Some (HBlock b) -> exists k, nth_error (heap w) b = Some k /\ 1 <= bref k) /\
+  (vars w = [] -> live_blocks w = 0).
+Proof. exact heap_invariant_thm. Qed.
+Print Assumptions heap_invariant.
+
+Theorem heap_invariant_inductive : Inv winit /\
+  forall w o w' r, Inv w -> step w o = Ok (w', r) -> Inv w'.
+Proof. exact (conj inv_init (fun w o w' r I E => proj1 (step_ok_refines w o w' r I E))). Qed.
+Print Assumptions heap_invariant_inductive.
+
+Theorem case_tables_are_ascii : forall c, (lowt c = lower c /\ uppt c = upper c)%Z.
+Proof. exact (fun c => conj (lowt_lower c) (uppt_upper c)). Qed.
+Print Assumptions case_tables_are_ascii.
+
+(* ---- non-vacuity ---- *)
+Definition demo : list op :=
+  [OLit [97;98;99]%Z; OBuf [65;66]%Z; OCopy 1; OAppendS 1 1; OPrependS 2 2;
+   OReg [120;121;122;33]%Z; ONew; OAttach 3 1 0 3; OCopy 3; OCStr 3; OReplaceS 3 3 0;
+   OJoin 0 [0;1;2] 44%Z; OResize 4 5 46%Z; OTrim 4 [46]%Z; OCompare 1 2; ODrop].
+
+Example demo_in_domain :
+  exists s outs, spec_run sinit demo = Some (s, outs) /\
+    svals s = [[97;98;99;44;65;66;65;66;44;65;66;65;66]; [65;66;65;66]; [65;66;65;66]; [97;98;99]]%Z /\
+    nth 9 outs RNone = RCStr [120;121;122]%Z (Some 0%Z) /\ nth 14 outs RNone = RInt 0%Z.
+Proof. vm_compute. eexists _, _. repeat split. Qed.
+
+Example demo_model_agrees :
+  exists w outs, run winit demo = Ok (w, outs) /\ Some (abs w, outs) = spec_run sinit demo /\
+    live_blocks w = 4 /\ length (heap w) = 13.
+Proof. vm_compute. eexists _, _. repeat split. Qed.
+
+(* a history leaving the domain (NUL byte in an operand of a C-string based search) *)
+Example out_of_domain : spec_run sinit [OBuf [97;0;98]%Z; OFindS 0 [98]%Z] = None /\
+                        run winit [OBuf [97;0;98]%Z; OFindS 0 [98]%Z] = Err BadArg.
+Proof. vm_compute. split; reflexivity. Qed.
+
+(* two variables sharing one block: writing one leaves the other alone *)
+Example sharing_then_write :
+  exists w w' r, run winit [OBuf [97]%Z; OCopy 0] = Ok (w, [RNone; RNone]) /\
+    nth_error (vars w) 0 = Some (HBlock 0) /\ nth_error (vars w) 1 = Some (HBlock 0) /\
+    step w (OAppendC 1 98%Z) = Ok (w', r) /\ target (OAppendC 1 98%Z) <> Some 0 /\
+    value w' 0 = [97]%Z /\ value w' 1 = [97;98]%Z.
+Proof. vm_compute. eexists _, _, _. repeat split. discriminate. Qed.
+
+(* an unterminated attached window is converted before the view is handed out *)
+Example view_of_unterminated :
+  exists w w' h', run winit [OReg [120;121;33]%Z; ONew; OAttach 0 0 0 2] = Ok (w, [RNone; RNone; RNone]) /\
+    nth_error (vars w) 0 = Some (HView 0 0 2) /\
+    cstr w 0 = Ok w' /\ nth_error (vars w') 0 = Some h' /\ h' = HBlock 0 /\
+    d_read w' h' 2 1 = Ok [Some 0%Z] /\ regs w' = [[120;121;33]%Z].
+Proof. vm_compute. eexists _, _, _. repeat split. Qed.
+
+(* the self-argument statement has instances: s.prepend(s) on a literal *)
+Example self_prepend_instance :
+  exists w, run winit [OLit [97;98]%Z] = Ok (w, [RNone]) /\
+    pre (abs w) (self_op SPrepend 0 0 0) = true /\
+    (exists w1 r1, step w (self_op SPrepend 0 0 0) = Ok (w1, r1) /\ value w1 0 = [97;98;97;98]%Z).
+Proof. vm_compute. eexists. repeat split. eexists _, _. repeat split. Qed.
